@@ -50,7 +50,9 @@ func sfChildRun(env *Env) error {
 	}
 	defer fp.Close()
 	devnull, _ := os.OpenFile(os.DevNull, os.O_WRONLY, 0)
-	os.Stdout = devnull // lal logs to stdout; stderr is kept for the crash dump
+	if os.Getenv("LALVERIF_SF_LOG") == "" {
+		os.Stdout = devnull // lal logs to stdout; stderr is kept for the crash dump
+	}
 	ce := newSfEnv(filepath.Dir(env.Out))
 	defer ce.cleanup()
 	return ReadScenarios(env.In, func(raw json.RawMessage) error {
@@ -162,7 +164,7 @@ func sfDeathEvents(raw json.RawMessage, stderr string, confirmed bool) []json.Ra
 	}
 	r, _ := json.Marshal(M{"ev": "reset", "sc": sc.Sc, "surf": sc.Surf, "cfg": sc.Cfg, "steps": steps})
 	e, _ := json.Marshal(M{"ev": "end", "sc": sc.Sc, "died": true, "confirmed": confirmed, "panic": false, "second": false,
-		"bystander": false, "done": 0, "crash": kind, "frame": frame, "note": ""})
+		"bystander": false, "done": 0, "crash": kind, "frame": frame, "note": "", "res": "n/a"})
 	return []json.RawMessage{r, e}
 }
 
